@@ -292,6 +292,9 @@ class Maxprocs(InProc, Contract):
     def ensures(self, cx, S, result):
         return [('accepts-positive-ints-unchanged', z3.And(S.n >= 1, zint(result) == S.n))]
 
+    def replay(self, ob):
+        return _native('run_fork_cap(%r)' % ob.clause)
+
 
 # ------------------------------------------------------------------------------------------------------------ shared arrays
 
